@@ -179,13 +179,16 @@ class Graph:
         # quote includes are looked up in the includer's directory first: a graph in which that finds a different
         # file than the root-relative one the plan means is ambiguous by construction; the caller regenerates
         self.ambiguous = False
+        # (pcpp, like MSVC, also searches the directories of every file on the include stack, so every directory of
+        # the graph counts, not only the includer's)
+        dirs = {os.path.dirname(n) for n in self.files if os.path.dirname(n)}
         for includer, text in self.files.items():
-            d = os.path.dirname(includer)
             for line in text.split("\n"):
-                if line.startswith('#include "') and d:
+                if line.startswith('#include "'):
                     inc = line[len('#include "'):-1]
-                    if os.path.normpath(os.path.join(d, inc)) in self.files and os.path.normpath(os.path.join(d, inc)) != inc:
-                        self.ambiguous = True
+                    for d in dirs:
+                        if os.path.normpath(os.path.join(d, inc)) in self.files and os.path.normpath(os.path.join(d, inc)) != inc:
+                            self.ambiguous = True
         self.inc_vars = order
         for name, text in self.files.items():
             p = os.path.join(self.root, name)
